@@ -56,7 +56,7 @@ HOT_NAMES = ["canary_unimported.func", "canary_unimported.VALUE", "canary_unimpo
              "canary_imported.ListSub", "os.system", "antigravity.fly", "this.s"]
 
 TAG_CH = set("ABCDEFGHIJKLMNOPQRSTUVWXYZabcdefghijklmnopqrstuvwxyz0123456789-;/?:@&=+$_.~*'()")
-SCALAR_TEXTS = ["", "a", "1", "2.5", "true", "~", "2001-01-01", "x y", "k", "v", "0x1F", "[1]", "os.system", "1+2j", "abc", "app"]
+SCALAR_TEXTS = ["", "a", "1", "2.5", "true", "~", "2001-01-01", "x y", "k", "v", "0x1F", "[1]", "os.system", "1+2j", "abc", "app", "app3", "app-key"]
 
 
 def uri_escape(s):
@@ -216,7 +216,7 @@ def tagrefs(families, names=None, weight_foreign=3):
     py = st.tuples(st.just("py"), forms, fams, names)
     pyval = st.tuples(st.just("py"), forms, st.sampled_from(VALUE_TAGS), st.just(""))
     other = st.sampled_from([("local", "!foo"), ("local", "!python/object:os.system"), ("local", "!app-c"), ("local", "!app-m/x"),
-                             ("local", "!app-c2"), ("local", "!app-m2/x"), ("uri", "tag:example.com,2000:x"),
+                             ("local", "!app-c2"), ("local", "!app-m2/x"), ("local", "!app-c3"), ("local", "!app-m3/x"), ("uri", "tag:example.com,2000:x"),
                              ("uri", "tag:yaml.org,2002:python"), ("uri", "tag:yaml.org,2002:python/"),
                              ("uri", "tag:yaml.org,2002:python/object"), ("uri", "tag:yaml.org,2002:yaml"), ("bang",),
                              ("uri", "tag:yaml.org,2002:Python/name:os.system"), ("uri", "tag:yaml.org,2002:str2")])
@@ -237,8 +237,12 @@ def nodes(families, max_leaves=8, names=None, registry_tags=()):
         return (kind, tagref, anc, text)
     scalar = st.tuples(st.just("s"), tr, anchor, st.sampled_from(SCALAR_TEXTS), st.sampled_from([False, False, False, True])).map(name_value)
     plain = st.tuples(st.just("s"), st.none(), st.just(False), st.sampled_from(SCALAR_TEXTS[1:]))
+    # the shape that reaches the name/module lookup: a name or module tag, a hot name, the empty value it demands
+    hot = st.tuples(st.just("s"), st.tuples(st.just("py"), st.sampled_from(["shorthand", "shorthand", "verbatim", "handle"]),
+                                            st.sampled_from(["name:", "name:", "module:"]), st.sampled_from(names or HOT_NAMES)),
+                    anchor, st.just(""))
     alias = st.integers(0, 20).map(lambda n: ("a", n))
-    leaf = st.one_of(scalar, scalar, plain, alias)
+    leaf = st.one_of(scalar, scalar, plain, alias, hot)
 
     def extend(ch):
         argmap = st.tuples(st.just("m"), tr, anchor, st.lists(st.tuples(
@@ -248,7 +252,16 @@ def nodes(families, max_leaves=8, names=None, registry_tags=()):
                          st.tuples(st.just("kv"), st.one_of(plain, plain, ch), ch),
                          st.tuples(st.just("merge"), ch),
                          st.tuples(st.just("mergelist"), st.one_of(st.none(), st.none(), tr), st.lists(ch, max_size=3)))
+        # an inline merge source whose entry is shadowed by an own key of the merging mapping: the shadowed value is still
+        # part of the document and must be constructed (and rejected when its tag is foreign)
+        ktext = st.sampled_from(["k", "v", "a", "1", "cmd"])
+        shadow = st.tuples(ktext, ch, ch, st.booleans()).map(lambda t: ("m", None, False, (
+            [("merge", ("m", None, False, [("kv", ("s", None, False, t[0]), t[1]), ("kv", ("s", None, False, "keep"), ("s", None, False, "1"))])),
+             ("kv", ("s", None, False, t[0]), t[2])] if t[3] else
+            [("kv", ("s", None, False, t[0]), t[2]),
+             ("mergelist", None, [("m", None, False, [("kv", ("s", None, False, t[0]), t[1])]), ("m", None, False, [("kv", ("s", None, False, t[0]), t[2])])])])))
         return st.one_of(
+            shadow,
             st.tuples(st.just("q"), tr, anchor, st.lists(ch, max_size=4)),
             st.tuples(st.just("m"), tr, anchor, st.lists(pair, max_size=4)),
             argmap,
